@@ -12,7 +12,9 @@ import (
 
 // doColumnSetting handles the two renderer-visible column settings used by
 // the fault engines ("align": A column, B 0 unset/1 left/2 right/3 centre;
-// "skipable": A column, B 0 unset/1 true/2 false).
+// "skipable": A column, B 0 unset/1 true/2 false/3 the string "yes"/4 the int 1
+// — the last two are not booleans: what a renderer makes of them is its
+// business, but the value the caller set stays the value the column reports).
 func (w *World) doColumnSetting(st *Step) bool {
 	switch st.Op {
 	case "align", "skipable":
@@ -38,11 +40,15 @@ func (w *World) doColumnSetting(st *Step) bool {
 		return true
 	}
 	var v interface{}
-	switch pick(3, st.B) {
+	switch pick(5, st.B) {
 	case 1:
 		v = true
 	case 2:
 		v = false
+	case 3:
+		v = "yes"
+	case 4:
+		v = 1
 	}
 	col.SetProperty(properties.Skipable, v)
 	return true
@@ -65,8 +71,8 @@ func (engC15) Runs(tier string) int {
 }
 
 // HangTimeout: a run executes several hundred faulted renders, of tall tables
-// at times; seconds on an idle machine.
-func (engC15) HangTimeout() time.Duration { return 5 * time.Minute }
+// at times; seconds on an idle machine, 20 s measured on a machine loaded three times over.
+func (engC15) HangTimeout() time.Duration { return 3 * time.Minute }
 
 func (engC15) Rule() string {
 	return "each run builds one seeded table (headers, ragged/multi-line/wide/markup texts, separators, late Row.Add, alignment and skipable column settings; some tables are tall (66-140 more rows) or hold one cell of 10000 characters) and lists 6-10 renderer routes (text under every built-in decoration and a custom one, csv, html with/without row-class generator and caption, json, markdown; via wrapper.RenderTo on a fresh wrapper or on one wrapper reused for all faults of the route, package RenderTo and auto.RenderTo; plain io.Writer or one that also offers WriteString). For each route a fault-free pass records the output O and the number N of Write calls; then EVERY k in 0..N-1 x {sticky, once, partial-then-failing, partial-then-succeeding} is executed (exhaustive in the fault dimension, sampled over tables). evaluations counts faulted renders. A run is non-trivial if its table has a header and at least one row; distinct = distinct (table shape, route list) hashes."
@@ -167,7 +173,7 @@ func (engC15) Gen(r *Rng, s *Script, idx int, tier string) {
 		if tall && !huge {
 			f = []int{FmtText, FmtMD, FmtCSV, FmtJSON, FmtText}[i%5]
 		}
-		st := Step{Op: "render", A: f, B: []int{0, 1, 2, 3, 4, 5, 6, 8, 9}[r.Intn(9)], C: []int{ViaPkg, ViaFresh, ViaFresh, ViaAuto, ViaReused, ViaAutoFn}[r.Intn(6)], D: r.Intn(16) | r.Pick([]int{4, 1, 1, 1, 1})<<4, E: r.Range(1, 99)}
+		st := Step{Op: "render", A: f, B: []int{0, 1, 2, 3, 4, 5, 6, 8, 9}[r.Intn(9)], C: []int{ViaPkg, ViaFresh, ViaFresh, ViaAuto, ViaReused, ViaAutoFn}[r.Intn(6)], D: r.Intn(16) | r.Pick([]int{4, 1, 1, 1, 1, 1})<<4, E: r.Range(1, 99)}
 		if huge && f == FmtText {
 			st.C = ViaReused
 		}
